@@ -174,7 +174,7 @@ REGISTRY = {
         "rules": [exponent.rule_linop_dtype, dmrg.rule_sandwich_orientation,
             dmrg.rule_lockstep, dmrg.rule_mirror_blocks, registries.rule_dense_linop_agree,
             P(dmrg.rule_sweep_memory, sites=[("quimb.tensor.tn1d.dmrg", "DMRG.solve", ("sweep",), "canonize")]),
-            dmrg.rule_skip_licence_intact, dmrg.rule_truncating_update_normalised,
+            dmrg.rule_skip_licence_intact, dmrg.rule_truncating_update_normalised, dmrg.rule_onesite_cap_enforced,
             P(iso.rule_iso_claim, only_modules=("quimb.tensor.tn1d.dmrg",), rule="iso-claim[dmrg]"),
             P(optflow.rule_option_delivery, opts=("bra",), modules=("quimb.tensor.tn1d.core", "quimb.tensor.tensor_core", "quimb.tensor.tn2d.core"),
               rule="bra-forwarding", floor=10,
